@@ -9,8 +9,9 @@ CONSTANTS
   Parts = {0}
   NoConf = NoConf
   Merged = Merged
+  Lookups = FALSE
   Static = FALSE
-  PubChoices <- MCDynPubs
+  PubChoices <- MCDynPubsQ
 INVARIANT Inv
 PROPERTY PairAgreement
 CHECK_DEADLOCK FALSE
